@@ -96,6 +96,20 @@ def strip_res(v):
     return v
 
 
+def is_pack_call(t):
+    """struct.pack(fmt, v) or struct.Struct(fmt).pack(v)"""
+    if t[0] == 'call' and t[1] == 'struct.pack':
+        return True
+    return t[0] == 'mcall' and t[2] == 'pack' and strip_res(t[1])[0] == 'call' and strip_res(t[1])[1] == 'struct.Struct'
+
+
+def pack_args(t):
+    """(positional arguments incl. the format, keyword arguments) of a packing call"""
+    if t[0] == 'call':
+        return tuple(t[2]), t[3]
+    return tuple(strip_res(t[1])[2]) + tuple(t[3]), tuple(strip_res(t[1])[3]) + tuple(t[4])
+
+
 def feasible(ev, path, syms, what):
     """The path's conditions that mention one of `syms` hold under the evaluator's bindings (None = some other condition)."""
     for test, pol, node in path.conds:
@@ -118,6 +132,8 @@ def key_attribute(model, cls):
     for p, v, node in model.returns(m):
         for t in find_all(v, lambda t: t[0] == 'sub' and t[2][0] == 'attr' and t[2][1] == SELF):
             keys.add(t[2][2])
+        for t in find_all(v, lambda t: t[0] == 'mcall' and t[2] == 'get' and t[3] and t[3][0][0] == 'attr' and t[3][0][1] == SELF):
+            keys.add(t[3][0][2])
         for t in find_all(v, lambda t: t[0] == 'call' and t[1] == 'len' and len(t[2]) == 1 and t[2][0][0] == 'attr' and t[2][0][1] == SELF):
             lens.add(t[2][0][2])
         for test, pol, _ in p.conds:
@@ -159,14 +175,14 @@ def size_of(model, cls, key_attr, len_attr, kw, domains):
 def check_integer_directives(rep, model, doc_text):
     facts = model.facts
     # pack: which attributes of a Pack item reach struct.pack as format and as value
-    pack_sites = model.sites('Pack', lambda t: t[0] == 'call' and t[1] == 'struct.pack')
+    pack_sites = model.sites('Pack', is_pack_call)
     fmt_attr = val_attr = None
     for fname, p, x, s, node in pack_sites:
-        a = [strip_res(y) for y in s[2]]
-        ok = len(a) == 2 and not s[3] and all(y[0] == 'attr' and y[1] == x for y in a) and a[0][2] != a[1][2]
+        a = [strip_res(y) for y in pack_args(s)[0]]
+        ok = len(a) == 2 and not pack_args(s)[1] and all(y[0] == 'attr' and y[1] == x for y in a) and a[0][2] != a[1][2]
         rep.check(ok, 'R10.3.pack', '{}: pack emits struct.pack(<the item\'s format>, <the item\'s value>)'.format(fname),
                   lambda s=s, node=node, fname=fname: Finding('R10.3.pack', fname, node, 'pack emits struct.pack({}) instead of the given format applied to the given value'.format(
-                      ', '.join(show(y) for y in s[2])), line=getattr(node, 'lineno', None)))
+                      ', '.join(show(y) for y in pack_args(s)[0])), line=getattr(node, 'lineno', None)))
         if ok:
             if fmt_attr not in (None, a[0][2]) or val_attr not in (None, a[1][2]):
                 raise AnalysisError('Pack: struct.pack sites disagree about the format / value attributes')
@@ -190,8 +206,11 @@ def check_integer_directives(rep, model, doc_text):
     for cls, doc_heading, want in (('Sequence', 'integer sequences', oracle.SEQUENCE_WIDTHS), ('ShorthandPack', 'shorthand', oracle.SHORTHAND_WIDTHS)):
         key_attr, len_attr = key_attribute(model, cls)
         if cls == 'Sequence':
-            raw = model.sites(cls, lambda t: t[0] == 'call' and t[1] == 'struct.pack')
-            sites = [(f, p, x, strip_res(s[2][0]), strip_res(s[2][1]), node) for f, p, x, s, node in raw if len(s[2]) == 2]
+            raw = model.sites(cls, is_pack_call)
+            for f, p, x, s, node in raw:
+                if len(pack_args(s)[0]) != 2 or pack_args(s)[1]:
+                    raise AnalysisError('{}: packing call {} is not (format, one value)'.format(f, show(s)[:100]))
+            sites = [(f, p, x, strip_res(pack_args(s)[0][0]), strip_res(pack_args(s)[0][1]), node) for f, p, x, s, node in raw]
         else:
             raw = model.sites(cls, lambda t: t[0] == 'new' and t[1] == 'Pack')
             sites = []
